@@ -146,16 +146,33 @@ theorem kOf_le (bitsPerKey : Nat) : kOf bitsPerKey ≤ 30 := by
     · rw [if_pos h2]; omega
     · rw [if_neg h2]; omega
 
-/-- the bit array size fits a u32 (true for every filter below 512 MiB) -/
+/-- the bit array size fits a u32 (true for every filter below 512 MiB).  Since fix D19 the crate
+    computes the bit count in 64 bits, so this is only kept as the stronger, historical proviso:
+    `FitsU32 → FitsBits`. -/
 def FitsU32 (bitsPerKey : Nat) (keys : List Bytes) : Prop :=
   (if keys.length * bitsPerKey < Consts.bloomMinBits then 8 else (keys.length * bitsPerKey + 7) / 8) * 8 < 4294967296
+
+/-- the bit array size fits the width (`Consts.bloomBitsWidth` = 64 since fix D19) in which the crate
+    computes it: true for every filter below 2^61 bytes (2 EiB) -/
+def FitsBits (bitsPerKey : Nat) (keys : List Bytes) : Prop :=
+  (if keys.length * bitsPerKey < Consts.bloomMinBits then 8 else (keys.length * bitsPerKey + 7) / 8) * 8
+    < 2 ^ Consts.bloomBitsWidth
+
+theorem two_pow_bitsWidth : 2 ^ Consts.bloomBitsWidth = 18446744073709551616 := by decide
+
+theorem FitsBits_of_FitsU32 {bitsPerKey : Nat} {keys : List Bytes} (h : FitsU32 bitsPerKey keys) :
+    FitsBits bitsPerKey keys := by
+  unfold FitsU32 at h
+  unfold FitsBits
+  rw [two_pow_bitsWidth]
+  omega
 
 end Bloom
 
 theorem bloom_no_false_neg (bitsPerKey : Nat) (keys : List Bytes) (key : Bytes)
-    (hfit : Bloom.FitsU32 bitsPerKey keys) (hmem : key ∈ keys) :
+    (hfit : Bloom.FitsBits bitsPerKey keys) (hmem : key ∈ keys) :
     Bloom.keyMayMatch key (Bloom.createFilter bitsPerKey keys) = true := by
-  unfold Bloom.FitsU32 at hfit
+  unfold Bloom.FitsBits at hfit
   unfold Bloom.createFilter
   generalize hnb : (if keys.length * bitsPerKey < Consts.bloomMinBits then 8
     else (keys.length * bitsPerKey + 7) / 8) = nbytes at hfit
@@ -165,7 +182,7 @@ theorem bloom_no_false_neg (bitsPerKey : Nat) (keys : List Bytes) (key : Bytes)
     by_cases h1 : keys.length * bitsPerKey < Consts.bloomMinBits
     · rw [if_pos h1]; omega
     · rw [if_neg h1]; omega
-  have hu : Bloom.u32 (nbytes * 8) = nbytes * 8 := Nat.mod_eq_of_lt hfit
+  have hu : (nbytes * 8) % 2 ^ Consts.bloomBitsWidth = nbytes * 8 := Nat.mod_eq_of_lt hfit
   simp only [hnb, hu]
   generalize hf : keys.foldl (Bloom.addKey (nbytes * 8) (Bloom.kOf bitsPerKey)) (List.replicate nbytes 0) = f
   have hflen : f.length = nbytes := by
@@ -186,6 +203,12 @@ theorem bloom_no_false_neg (bitsPerKey : Nat) (keys : List Bytes) (key : Bytes)
   rw [← hf]
   apply Bloom.checkProbes_foldl _ _ (by omega) key keys _ _ hmem
   rw [List.length_replicate]; omega
+
+/-- the historical form: under the (stronger) u32 proviso -/
+theorem bloom_no_false_neg_u32 (bitsPerKey : Nat) (keys : List Bytes) (key : Bytes)
+    (hfit : Bloom.FitsU32 bitsPerKey keys) (hmem : key ∈ keys) :
+    Bloom.keyMayMatch key (Bloom.createFilter bitsPerKey keys) = true :=
+  bloom_no_false_neg bitsPerKey keys key (Bloom.FitsBits_of_FitsU32 hfit) hmem
 
 
 /-! # PART 2: filter block -/
@@ -680,23 +703,58 @@ theorem Bloom.createFilter_length (bitsPerKey : Nat) (keys : List Bytes) :
   unfold Bloom.createFilter
   simp only [List.length_append, Bloom.foldl_addKey_length, List.length_replicate, List.length_singleton]
 
-/-- PARTS 1+2 combined: with the bloom policy, a filter block shorter than 512 MiB never rejects a
-    key that was added for the block at offset `off`. -/
+/-- a bloom filter shorter than 2^61 bytes has no false negatives (in particular every filter that is
+    part of a table file, whose size is below 2^32) -/
+theorem bloom_no_false_neg_of_length (bitsPerKey : Nat) (keys : List Bytes) (key : Bytes)
+    (hlen : (Bloom.createFilter bitsPerKey keys).length ≤ 2 ^ 61) (hmem : key ∈ keys) :
+    Bloom.keyMayMatch key (Bloom.createFilter bitsPerKey keys) = true := by
+  apply bloom_no_false_neg bitsPerKey keys key _ hmem
+  rw [Bloom.createFilter_length] at hlen
+  unfold Bloom.FitsBits
+  rw [Bloom.two_pow_bitsWidth]
+  omega
+
+/-- the bloom policy satisfies the bounded soundness requirement on filter policies
+    (`WOptsOK.filterSound`): no false negatives for filters shorter than 4 GiB -/
+theorem bloom_policy_sound (bitsPerKey : Nat) (ks : List Bytes) (k : Bytes) (hm : k ∈ ks)
+    (hlen : ((Bloom.policy bitsPerKey).createFilter ks).length < 2 ^ 32) :
+    (Bloom.policy bitsPerKey).keyMayMatch k ((Bloom.policy bitsPerKey).createFilter ks) = true := by
+  have hlen' : (Bloom.createFilter bitsPerKey ks).length < 2 ^ 32 := hlen
+  exact bloom_no_false_neg_of_length bitsPerKey ks k (by omega) hm
+
+/-- PARTS 1+2 combined: with the bloom policy, a filter block shorter than 4 GiB (the format's limit:
+    offsets inside a filter block are 32-bit) never rejects a key that was added for the block at
+    offset `off`.  (Before fix D19 -- bit count in `u32` -- this needed `< 2^29`.) -/
 theorem bloom_filter_block_no_false_neg (bitsPerKey : Nat)
+    (evs : List FbEvent) (b : FilterBlockBuilder) (h : fbRun (Bloom.policy bitsPerKey) {} evs = .ok b)
+    (hsize : (b.finish (Bloom.policy bitsPerKey)).length < 2 ^ 32)
+    (off : Nat) (k : Bytes) (hk : fbAdded off k 0 evs) :
+    ∃ r, FilterBlockReader.new (b.finish (Bloom.policy bitsPerKey)) = .ok r ∧
+      r.keyMayMatch (Bloom.policy bitsPerKey) off k = .ok true := by
+  refine filter_block_no_false_neg_gen _ evs b h ?_ hsize off k hk
+  intro ks k hm hle
+  have hle' : (Bloom.createFilter bitsPerKey ks).length ≤
+      (b.finish (Bloom.policy bitsPerKey)).length := hle
+  exact bloom_no_false_neg_of_length bitsPerKey ks k (by omega) hm
+
+/-- the historical form (size below 512 MiB) -/
+theorem bloom_filter_block_no_false_neg_2_29 (bitsPerKey : Nat)
     (evs : List FbEvent) (b : FilterBlockBuilder) (h : fbRun (Bloom.policy bitsPerKey) {} evs = .ok b)
     (hsize : (b.finish (Bloom.policy bitsPerKey)).length < 2 ^ 29)
     (off : Nat) (k : Bytes) (hk : fbAdded off k 0 evs) :
     ∃ r, FilterBlockReader.new (b.finish (Bloom.policy bitsPerKey)) = .ok r ∧
-      r.keyMayMatch (Bloom.policy bitsPerKey) off k = .ok true := by
-  refine filter_block_no_false_neg_gen _ evs b h ?_ (by omega) off k hk
-  intro ks k hm hle
-  apply bloom_no_false_neg bitsPerKey ks k _ hm
-  have hl := Bloom.createFilter_length bitsPerKey ks
-  show (if ks.length * bitsPerKey < Consts.bloomMinBits then 8
-        else (ks.length * bitsPerKey + 7) / 8) * 8 < 4294967296
-  have hle' : (Bloom.createFilter bitsPerKey ks).length ≤
-      (b.finish (Bloom.policy bitsPerKey)).length := hle
-  omega
+      r.keyMayMatch (Bloom.policy bitsPerKey) off k = .ok true :=
+  bloom_filter_block_no_false_neg bitsPerKey evs b h (by omega) off k hk
+
+/-- PART 2 for a policy that is sound on filters shorter than 4 GiB (the form `WOptsOK.filterSound`
+    has since fix D19) -/
+theorem filter_block_no_false_neg_bounded (p : FilterPolicy)
+    (hp : ∀ ks k, k ∈ ks → (p.createFilter ks).length < 2 ^ 32 → p.keyMayMatch k (p.createFilter ks) = true)
+    (evs : List FbEvent) (b : FilterBlockBuilder) (h : fbRun p {} evs = .ok b)
+    (hsize : (b.finish p).length < 2 ^ 32)
+    (off : Nat) (k : Bytes) (hk : fbAdded off k 0 evs) :
+    ∃ r, FilterBlockReader.new (b.finish p) = .ok r ∧ r.keyMayMatch p off k = .ok true :=
+  filter_block_no_false_neg_gen p evs b h (fun ks k hm hle => hp ks k hm (by omega)) hsize off k hk
 
 end Sst
 
@@ -705,3 +763,7 @@ end Sst
 #print axioms Sst.filter_block_no_false_neg
 #print axioms Sst.filter_block_no_false_neg'
 #print axioms Sst.bloom_filter_block_no_false_neg
+#print axioms Sst.bloom_no_false_neg_u32
+#print axioms Sst.bloom_policy_sound
+#print axioms Sst.bloom_filter_block_no_false_neg_2_29
+#print axioms Sst.filter_block_no_false_neg_bounded
